@@ -172,12 +172,12 @@ func ParseDecision(s string) smtpx.Decision {
 func (c *Case) Args() []string {
 	caps := "-"
 	if len(c.Caps) > 0 {
-		caps = strings.Join(c.Caps, ",")
+		caps = strings.ReplaceAll(strings.Join(c.Caps, ","), " ", "_")
 	}
 	if c.TLS == 'O' || c.TLS == 'M' {
 		after := "-"
 		if len(c.CapsTLS) > 0 {
-			after = strings.Join(c.CapsTLS, ",")
+			after = strings.ReplaceAll(strings.Join(c.CapsTLS, ","), " ", "_")
 		}
 		caps += "/" + string(c.TLS) + "/" + after
 	}
@@ -222,13 +222,13 @@ func ParseCase(args []string) (*Case, error) {
 	c := &Case{TLS: 'N'}
 	capTok := strings.Split(args[0], "/")
 	if capTok[0] != "-" {
-		c.Caps = strings.Split(capTok[0], ",")
+		c.Caps = strings.Split(strings.ReplaceAll(capTok[0], "_", " "), ",")
 	}
 	if len(capTok) == 3 && (capTok[1] == "O" || capTok[1] == "M") {
 		c.TLS = capTok[1][0]
 		c.CapsTLS = []string{}
 		if capTok[2] != "-" {
-			c.CapsTLS = strings.Split(capTok[2], ",")
+			c.CapsTLS = strings.Split(strings.ReplaceAll(capTok[2], "_", " "), ",")
 		}
 	}
 	if args[1] != "-" {
@@ -645,7 +645,8 @@ func collect(res *Result, sess *session, msgs []*mail.Msg) {
 		_ = sess.conn.Close()
 		<-sess.srv.Done
 		res.Ops = sess.conn.Ops()
-		res.Trace, res.Commits = sess.srv.Snapshot()
+		res.Trace, _ = sess.srv.Snapshot()
+		res.Commits = sess.srv.SnapshotAccepted() // accepted at end-of-data, also if the client did not wait for the reply
 	}
 	if res.Panic != "" {
 		res.RetKind = "panic"
